@@ -1789,16 +1789,21 @@ def part_g(ctx, stats, sketches):
             cs = rng.sample(P3, rng.choice([2, 3, 4]))
             for _ in range(4):
                 cases.append((cs, [rng.choice(["int", "float", "bool", "double"]) for _ in range(3)]))
-    res = fw.run_sketches([{"cpp": overload_probe_sketch(cases), "input": "", "loops": 0}])[0]
-    if not res["compiled"] or res["rc"] != 0:
-        ctx.disagree("harness self-check: the overload probe sketch does not compile / run", "overload_probe_sketch", "compiles", res.get("compile_log", "")[-600:])
-    else:
+    chunks = [cases[i:i + 300] for i in range(0, len(cases), 300)]           # small sketches: no verdict depends on compile time
+    results = fw.run_sketches([{"cpp": overload_probe_sketch(ch), "input": "", "loops": 0} for ch in chunks])
+    for ch, res in zip(chunks, results):
+        if res.get("compile_log") == "compiler timeout" or res.get("rc") == "timeout":
+            st["gxx_probe_timeouts"] = st.get("gxx_probe_timeouts", 0) + 1      # machine overloaded: not compared, counted
+            continue
+        if not res["compiled"] or res["rc"] != 0:
+            ctx.disagree("harness self-check: the overload probe sketch does not compile / run", "overload_probe_sketch", "compiles", res.get("compile_log", "")[-600:])
+            continue
         got = [int(e[2:]) for e in res["events"] if e.startswith("S ")]
-        if len(got) != len(cases):
-            ctx.disagree("harness self-check: overload probe printed another number of lines", len(cases), len(cases), len(got))
+        if len(got) != len(ch):
+            ctx.disagree("harness self-check: overload probe printed another number of lines", len(ch), len(ch), len(got))
         elif ctx.exe:
-            wire = [[14, [], [["f", [enc_ctype(t) for t in c]] for c in cs], [1], "f", [enc_aty(a) for a in args]] for cs, args in cases]
-            for (cs, args), g_, m in zip(cases, got, ctx.model(wire)):
+            wire = [[14, [], [["f", [enc_ctype(t) for t in c]] for c in cs], [1], "f", [enc_aty(a) for a in args]] for cs, args in ch]
+            for (cs, args), g_, m in zip(ch, got, ctx.model(wire)):
                 st["gxx_cases"] += 1
                 st["gxx_selected" if g_ >= 0 else "gxx_ill_formed"] += 1
                 exp = None if not m[1] else [dec_ctype(t) for t in m[1][0]]
